@@ -807,6 +807,28 @@ impl<'w> Ctx<'w> {
                 }
             }
         }
+        // `PLACE.as_mut().map(Type::method)`, `method` a translated `&mut self` method: run on the content, written back
+        if name == "map" && m.args.len() == 1 {
+            if let (Expr::MethodCall(am), Expr::Path(pth)) = (&*m.receiver, &m.args[0]) {
+                if am.method == "as_mut" && am.args.is_empty() && pth.path.segments.len() == 2 {
+                    if let Some(pl) = self.place_of(&am.receiver) {
+                        if let Ty::Opt(t) = self.resolve(&pl.ty) {
+                            let key = format!("{}.{}", pth.path.segments[0].ident, pth.path.segments[1].ident);
+                            let sig = self.w.fns.get(&key).cloned().ok_or_else(|| format!("as_mut().map({}): not a translated function", key))?;
+                            if !sig.has_self || !sig.self_mut || sig.params.len() != 1 || sig.params[0].0 != *t || sig.uses_step || sig.uses_w || sig.uses_compress || sig.uses_decompress || sig.ret_is_res {
+                                return Err("as_mut().map callee shape".into());
+                            }
+                            let cur = self.place_read(&pl);
+                            let (r, o) = (self.fresh("r"), self.fresh("o"));
+                            self.pre.push(format!("let ({}, {}) ← optMapMut {} (fun x => Grenad.Gen.{} x)", r, o, cur, sig.lean));
+                            let w = self.place_write(&pl, &o);
+                            self.pre.push(w);
+                            return Ok(E { s: r, ty: Ty::Opt(Box::new(sig.ret.clone())), eff: false });
+                        }
+                    }
+                }
+            }
+        }
         // `head.is_empty()` on the front part of a list walked with `split_last_mut`
         if let Expr::Path(rp) = strip_ref(&m.receiver) {
             if let Some((_, lo, hi)) = self.heads.get(&path_str(&rp.path)).cloned() {
@@ -1068,6 +1090,55 @@ impl<'w> Ctx<'w> {
             }
             (Ty::Opt(t), "is_some") => { let _ = t; Ok(E { s: format!("{}.isSome", paren(&recv.s)), ty: Ty::Bool, eff }) }
             (Ty::Opt(t), "is_none") => { let _ = t; Ok(E { s: format!("{}.isNone", paren(&recv.s)), ty: Ty::Bool, eff }) }
+            (Ty::Res(t), "map") if matches!(args[0], Expr::Path(p) if p.path.is_ident("Some")) => {
+                Ok(E { s: format!("(Option.some {})", recv.s), ty: Ty::Res(Box::new(Ty::Opt(t))), eff })
+            }
+            (Ty::Res(t), "map") if matches!(args[0], Expr::Closure(_)) => {
+                // `result.map(|x| body)`: errors travel in the monad, the closure runs on the value
+                let c = match args[0] { Expr::Closure(c) => c, _ => unreachable!() };
+                if c.inputs.len() != 1 { return Err("closure arity".into()); }
+                let tmp = self.fresh("v");
+                self.pre.push(format!("let {} := {}", tmp, recv.s));
+                self.vars.push(BTreeMap::new());
+                let mut al = BTreeMap::new();
+                let pat = self.pattern(&c.inputs[0], &t, None, &mut al);
+                self.mut_pat_binds.clear();
+                let r = pat.and_then(|p| { self.pre.push(format!("let {} := {}", p, tmp)); self.expr(&c.body) });
+                self.vars.pop();
+                let body = r?;
+                Ok(E { s: body.s, ty: Ty::Res(Box::new(body.ty)), eff: body.eff })
+            }
+            (Ty::Opt(t), "filter") => {
+                match args[0] {
+                    Expr::Closure(c) if c.inputs.len() == 1 => {
+                        self.vars.push(BTreeMap::new());
+                        let mut al = BTreeMap::new();
+                        let pat = self.pattern(&c.inputs[0], &t, None, &mut al);
+                        self.mut_pat_binds.clear();
+                        let body = pat.and_then(|p| self.cond(&c.body).map(|b| (p, b)));
+                        self.vars.pop();
+                        let (pat, body) = body?;
+                        if body.eff { return Err("effectful filter predicate".into()); }
+                        Ok(E { s: format!("({}.filter (fun {} => {}))", paren(&recv.s), pat, body.s), ty: Ty::Opt(t), eff })
+                    }
+                    _ => Err("Option::filter argument".into()),
+                }
+            }
+            (Ty::Opt(t), "map" | "and_then") if matches!(args[0], Expr::Path(p) if p.path.segments.len() == 2 && !path_str(&p.path).ends_with("as_ref")) => {
+                // `opt.map(Type::f)` / `opt.and_then(Type::f)`, `f` a translated function of the content taken by value or `&self`
+                let pth = match args[0] { Expr::Path(p) => p, _ => unreachable!() };
+                let key = format!("{}.{}", pth.path.segments[0].ident, pth.path.segments[1].ident);
+                let sig = self.w.fns.get(&key).cloned().ok_or_else(|| format!("Option::{}({}): not a translated function", name, key))?;
+                if sig.params.len() != 1 || sig.params[0].1 || sig.params[0].0 != *t || sig.uses_step || sig.uses_w || sig.uses_compress || sig.uses_decompress || sig.ret_is_res {
+                    return Err("Option::map callee shape".into());
+                }
+                if name == "map" {
+                    Ok(E { s: format!("(← optMapM {} (fun x => Grenad.Gen.{} x))", paren(&recv.s), sig.lean), ty: Ty::Opt(Box::new(sig.ret.clone())), eff: true })
+                } else {
+                    if !matches!(sig.ret, Ty::Opt(_)) { return Err("and_then callee does not return an Option".into()); }
+                    Ok(E { s: format!("(← optBindM {} (fun x => Grenad.Gen.{} x))", paren(&recv.s), sig.lean), ty: sig.ret.clone(), eff: true })
+                }
+            }
             (Ty::Res(t), "map") if matches!(args[0], Expr::Path(_)) => {
                 // `result.map(Type::f)`, `f` a translated by-value function of one argument: errors travel in the monad
                 let pth = match args[0] { Expr::Path(p) => p, _ => unreachable!() };
